@@ -118,7 +118,17 @@ def cmd_check(prop: str, tier: str) -> int:
     seed = int(os.environ.get("VERIF_SEED", "0") or 0)
     modname = prop.lower()
     mod = importlib.import_module(f"pendmc.props.{modname}")
-    plan = mod.plan(tier, seed)
+    plan = list(mod.plan(tier, seed))
+    # the same exploration (a seed-rotated sixth / third of the first configuration's shards) in a process whose
+    # ambient settings are not the defaults: first day of the week = Sunday, default locale = fr
+    ambient = getattr(mod, "AMBIENT", {"ws": 6, "locale": "fr"})
+    amb_shards = 0
+    if ambient:
+        k = 3 if tier == "thorough" else 6
+        cfg0, shards0 = plan[0]
+        sub = shards0[seed % k::k] or shards0[:1]
+        plan.append((dict(cfg0, ambient=ambient), sub))
+        amb_shards = len(sub)
     need_ext = any(cfg.get("ext", 1) for cfg, _ in plan)
     try:
         so = buildext.ensure(repo_path()) if need_ext else None
@@ -194,6 +204,9 @@ def cmd_check(prop: str, tier: str) -> int:
     cov = ev["coverage"]
     cov.setdefault("samples", merged.samples[:8] or ["<none>"])
     cov["outcome_classes"] = dict(merged.outcomes)
+    if ambient:
+        cov["ambient_configuration"] = {"settings": ambient, "shards_repeated": amb_shards,
+                                        "of_first_configuration": len(plan[0][1])}
     cov["known_finding_hits"] = {k: v["count"] for k, v in merged.kf.items()}
     cov["violation_signatures"] = vio_summary
     cov["unreproduced_horizon_expiries_dropped"] = dropped
